@@ -3,7 +3,25 @@ from fractions import Fraction as F
 from tools import vlib
 from checks.common import frac
 
-THEOREMS = []
+THEOREMS = [
+    "Rink.Spec.degree_roundtrip",
+    "Rink.Spec.degree_roundtrip_inv",
+    "Rink.Spec.resolved_textbook",
+    "Rink.Spec.textbook_celsius",
+    "Rink.Spec.textbook_fahrenheit",
+    "Rink.Spec.textbook_reaumur",
+    "Rink.Spec.textbook_romer",
+    "Rink.Spec.textbook_delisle",
+    "Rink.Spec.textbook_newton",
+    "Rink.Spec.pair_roundtrip",
+    "Rink.Spec.pair_compose",
+    "Rink.Spec.eval_degree",
+    "Rink.Spec.degree_refuses_dimensioned",
+    "Rink.Spec.degree_refused_in_target",
+    "Rink.Spec.convert_degree",
+    "Rink.Spec.convert_degree_mismatch",
+    "Rink.Spec.spelling_table",
+]
 
 # textbook affine maps to kelvin
 TO_K = {
